@@ -27,6 +27,59 @@ R1 = {
         M("algo/KnuthD_MC.tla", "algo/KnuthD_vartime_W2L5Y4.cfg", tiers=T, workers=12),
         M("algo/KnuthD_MC.tla", "algo/KnuthD_limb_W4L3Y1.cfg", tiers=T),
     ],
+    "C03": [
+        M("algo/Mul.tla", "algo/Mul_fixed_W2S4B1.cfg", workers=8),
+        M("algo/Mul.tla", "algo/Mul_boxed_W2_3x4.cfg"),
+        M("algo/Mul.tla", "algo/Mul_boxed_W2_4x3.cfg"),
+        M("algo/Mul.tla", "algo/Mul_boxed_W2_3x4_pinned.cfg", expect_violation="Exact"),
+        M("algo/Mul.tla", "algo/Mul_fixed_W3S4B2.cfg", tiers=T, workers=14, timeout=3000),
+        M("algo/Mul.tla", "algo/Mul_boxed_W3_3x4.cfg", tiers=T, workers=14, timeout=3000),
+        M("algo/Mul.tla", "algo/Mul_boxed_W2_5x6.cfg", tiers=T, workers=14, timeout=3000),
+    ],
+    "C05": [
+        M("algo/Shift.tla", "algo/Shift_W2N3.cfg"),
+        M("algo/Shift.tla", "algo/Shift_W4N2.cfg"),
+        M("algo/Shift.tla", "algo/Shift_W3N3.cfg"),
+        M("algo/Shift.tla", "algo/Shift_W2N3_pinned.cfg", expect_violation="WideOK"),
+        M("algo/Shift.tla", "algo/Shift_W2N5.cfg", tiers=T),
+        M("algo/Shift.tla", "algo/Shift_W2N6.cfg", tiers=T, timeout=3000),
+    ],
+    "C20": [
+        M("algo/Sqrt.tla", "algo/Sqrt_B8.cfg"), M("algo/Sqrt.tla", "algo/Sqrt_B9.cfg"),
+        M("algo/Sqrt.tla", "algo/Sqrt_B12.cfg"), M("algo/Sqrt.tla", "algo/Sqrt_B14.cfg"),
+        M("algo/Sqrt.tla", "algo/Sqrt_B14_fewer.cfg", expect_violation="FewerRoundsEnough"),
+        M("algo/Sqrt.tla", "algo/Sqrt_B16.cfg", tiers=T), M("algo/Sqrt.tla", "algo/Sqrt_B18.cfg", tiers=T, workers=12),
+        M("algo/Sqrt.tla", "algo/Sqrt_B20.cfg", tiers=T, workers=12, timeout=3000),
+    ],
+    "C10": [
+        M("algo/Inv.tla", "algo/Inv_B6.cfg"), M("algo/Inv.tla", "algo/Inv_B8.cfg", workers=8),
+        M("algo/Inv.tla", "algo/Inv_B6_pinned.cfg", expect_violation="InvModOK"),
+        M("algo/Inv.tla", "algo/Inv_B9.cfg", tiers=T, workers=12),
+    ],
+    "C13": [
+        M("algo/Signed.tla", "algo/Signed_B5.cfg"), M("algo/Signed.tla", "algo/Signed_B7.cfg"),
+        M("algo/Signed.tla", "algo/Signed_B9.cfg", tiers=T, workers=12),
+    ],
+    "C14": [
+        M("algo/Signed.tla", "algo/Signed_B5.cfg"), M("algo/Signed.tla", "algo/Signed_B7.cfg"),
+        M("algo/Signed.tla", "algo/Signed_B5_pinned.cfg", expect_violation="FloorOK"),
+        M("algo/Signed.tla", "algo/Signed_B9.cfg", tiers=T, workers=12),
+    ],
+    "C04": [
+        M("algo/Words.tla", "algo/Words_W2N2.cfg"),
+        M("algo/Words.tla", "algo/Words_W2N3.cfg", tiers=T, workers=12), M("algo/Words.tla", "algo/Words_W4N1.cfg", tiers=T, workers=12, timeout=3000),
+    ],
+    "C06": [
+        M("algo/Words.tla", "algo/Words_W2N2.cfg"),
+        M("algo/Words.tla", "algo/Words_W3N2.cfg", tiers=T, workers=12, timeout=3000),
+    ],
+    "C07": [
+        M("algo/ModArith.tla", "algo/ModArith_plain_W3N2.cfg"),
+        M("algo/ModArith.tla", "algo/ModArith_plain_W2N3.cfg"),
+        M("algo/ModArith.tla", "algo/ModArith_special_W3N2.cfg"),
+        M("algo/ModArith.tla", "algo/ModArith_special_W2N3.cfg"),
+        M("algo/ModArith.tla", "algo/ModArith_special_W2N3_pinned.cfg", expect_violation="MulSpecialOK"),
+    ],
     "C19": [
         M("algo/Rand.tla", "algo/Rand_W3N2.cfg", workers=8),
         M("algo/Rand.tla", "algo/Rand_W2N3.cfg", workers=8),
